@@ -3,9 +3,11 @@
 For every message built from fields:  (1) the leading 16-bit length equals the number of bytes that follow;  (2)
 X.from_bytes(bytes) has the fields the message was built from (normalisation: None == "" == absent header;
 TMSEncoding.UNDEFINED == None; the forced 'reserved' bit of text messages is not compared);  (3) the parsed object
-serialises again to the same bytes;  (4) the bytes equal the reference layout of vp/refs/moto_ref.py (frame layout written
-from the module doc-strings and the captured messages: 5+2-bit sequence-number split, address / length-value fields,
-second headers, CSBK trailer).
+serialises again to the same bytes;  (4) the bytes, decoded by the independent reference decoder of vp/refs/moto_ref.py
+(frame layout written from the module doc-strings and the captured messages: 5+2-bit sequence-number split, address /
+length-value fields, second headers, CSBK trailer), carry the built fields.  (4) accepts every valid encoding of the same
+fields (it does not compare byte-for-byte), so it cannot object to an encoder that, say, always emits the second
+sequence-number header.
 """
 from __future__ import annotations
 
@@ -110,10 +112,20 @@ def oracle_tms(case):
     _, b2 = call(p.as_bytes)
     if bytes(b2) != b:
         raise Fail("parsed_message_serialises_to_same_bytes", bytes(b2).hex(), b.hex(), klass)
-    # (4) reference layout
-    ref = MR.tms_bytes(pdu, bool(case["ack"]), bool(case["reserved"]), addr, capability=cap, sn=sn, encoding=(enc_eff.value if enc_eff is not None else 0), message=message or b"")
-    if b != ref:
-        raise Fail("wire_image_equals_reference_layout", b.hex(), ref.hex(), klass)
+    # (4) reference layout: the octets, decoded by layout knowledge alone, carry the built fields
+    try:
+        r = MR.tms_parse(b)
+    except (MR.LayoutError, IndexError) as e:
+        raise Fail("wire_image_follows_reference_layout", f"{b.hex()}: {e}", "decodable by the documented layout", klass)
+    got_r = {"pdu": r["pdu"], "ack": r["ack"], "address": r["address"].hex(), "capability": r["capability"], "sn": r["sn"],
+             "encoding": None if pdu == "ack" else r["encoding"], "message": r["message"].hex() if r["message"] else None, "more": r["more"]}
+    exp_r = {"pdu": pdu, "ack": bool(case["ack"]), "address": addr.hex(), "capability": cap, "sn": sn,
+             "encoding": None if pdu == "ack" else (enc_eff.value if enc_eff is not None else 0), "message": message.hex() if message else None, "more": exp_more}
+    if pdu != "text":
+        got_r["reserved"], exp_r["reserved"] = r["reserved"], bool(case["reserved"])
+    if got_r != exp_r:
+        diff = {k: [got_r[k], exp_r[k]] for k in exp_r if got_r[k] != exp_r[k]}
+        raise Fail("wire_image_decodes_to_built_fields_by_reference_layout", {"bytes": b.hex(), **{k: v[0] for k, v in diff.items()}}, {k: v[1] for k, v in diff.items()}, klass)
 
 
 # ---------------------------------------------------------------------------------------------- ARS
@@ -189,10 +201,18 @@ def oracle_ars(case):
     _, b2 = call(p.as_bytes)
     if bytes(b2) != b:
         raise Fail("parsed_message_serialises_to_same_bytes", bytes(b2).hex(), b.hex(), klass)
-    ref = MR.ars_bytes(pdu, more, ack, bool(case["priority"]), bool(case["control"]), event=MR.ARS_EVENTS[event] if event is not None else None,
-                       device=kw.get("device_identifier"), user=kw.get("user_identifier"), password=kw.get("password"), second=second_octet, csbk=csbk)
-    if b != ref:
-        raise Fail("wire_image_equals_reference_layout", b.hex(), ref.hex(), klass)
+    try:
+        r = MR.ars_parse(b)
+    except (MR.LayoutError, IndexError, UnicodeDecodeError) as e:
+        raise Fail("wire_image_follows_reference_layout", f"{b.hex()}: {e}", "decodable by the documented layout", klass)
+    got_r = {k: r[k] for k in ("pdu", "more", "ack", "priority", "control", "event", "second", "csbk")}
+    got_r.update({k: _norm_text(r[k]) for k in ("device", "user", "password")})
+    exp_r = {"pdu": pdu, "more": more, "ack": ack, "priority": bool(case["priority"]), "control": bool(case["control"]),
+             "event": MR.ARS_EVENTS[event] if event is not None else None, "second": second_octet, "csbk": csbk,
+             "device": _norm_text(kw.get("device_identifier")), "user": _norm_text(kw.get("user_identifier")), "password": _norm_text(kw.get("password"))}
+    if got_r != exp_r:
+        diff = {k: [got_r[k], exp_r[k]] for k in exp_r if got_r[k] != exp_r[k]}
+        raise Fail("wire_image_decodes_to_built_fields_by_reference_layout", {"bytes": b.hex(), **{k: v[0] for k, v in diff.items()}}, {k: v[1] for k, v in diff.items()}, klass)
 
 
 # ---------------------------------------------------------------------------------------------- classes
